@@ -149,7 +149,7 @@ def extra(tier, seed):
         out.append(Extra(f'C19:static:{name}', 'static', 'discharged' if ok else 'failed', 'ast-static',
                          time.time() - t0, detail, None if ok else {'detail': detail}))
     quick = tier == 'quick'
-    cases, dims, rep = (25, (6, 3, 5), 3) if quick else (300, (12, 4, 10), 6)
+    cases, dims, rep = (25, (6, 3, 5), 3) if quick else (200, (12, 4, 10), 4)
     bound = (f'<= {dims[0]} alternatives (non-contiguous ids, shuffled table), <= {dims[1]} strata, <= {dims[2]} individuals, '
              f'{cases} generated contexts x {rep} independent samplings, seed {seed}')
     args = [str(cases), str(seed)] + [str(d) for d in dims] + [str(rep)]
